@@ -19,6 +19,7 @@ import slicer  # noqa: E402
 import smt_run  # noqa: E402
 
 REPO = os.environ.get("VERIF_REPO", "/repo")
+DEV_ONLY = os.environ.get("VERIF_DEV_ONLY", "")
 BUILD = os.path.join(VERIF, ".build")
 MCPROBE = os.path.join(BUILD, "mcprobe-target", "debug", "mcprobe")
 
@@ -180,6 +181,10 @@ class Run:
         """lemmas: list of dict(id, harness, covers=[...], role=fn(res, replay_out)->str, api=fn(res)->(bool, detail)|None,
         claim=str).  Runs all harnesses in parallel, then replays failures natively."""
         timeout = timeout or (150 if self.tier == "quick" else 900)
+        if DEV_ONLY:      # development aid (never set by a registered command): run only the lemmas whose id contains the substring; no evidence is written
+            lemmas = [l for l in lemmas if DEV_ONLY in l["id"]]
+            if not lemmas:
+                return
         self.crates.append(crate)
         if self.replay is not None:
             # replay mode: no solver; the recorded values are fed to the same harness, natively, on the current tree
@@ -299,6 +304,8 @@ class Run:
         """Existential query: unsat => lemma holds.  sat => `witness(model)` must replay it against the real
         code and return (role, what, payload) or None when it does not reproduce.
         vacuity: a query (the domain without the negated lemma) that must be sat."""
+        if DEV_ONLY and DEV_ONLY not in lid:
+            return None
         if self.replay is not None:
             if lid.split("[")[0] != self.replay.get("lemma", "").split("[")[0] or "model" not in self.replay or witness is None:
                 return None
@@ -376,7 +383,7 @@ class Run:
         ev = {"property_id": self.prop, "tier": self.tier, "seed": self.seed, "level": level, "coverage": cov,
               "assumptions": self.assumptions, "wall_s": wall, "violations": len(self.violations)}
         os.makedirs(os.path.join(VERIF, "evidence"), exist_ok=True)
-        if self.replay is None:      # a replay run does not describe a check run: leave the evidence file alone
+        if self.replay is None and not DEV_ONLY:      # a replay run does not describe a check run: leave the evidence file alone
             with open(os.path.join(VERIF, "evidence", self.prop + ".json"), "w") as f:
                 json.dump(ev, f, indent=1, ensure_ascii=False)
         n_h = sum(1 for o in self.outcomes if o.status == "holds")
